@@ -162,15 +162,17 @@ def _contains_return(stmts):
     return False
 
 
-def _tail(stmts, make):
+def _tail(stmts, make, fall=None):
     """Rewrite a statement list whose returns are all in tail position: `return e` -> make(e) (a list of statements).
-    Returns (new statements, always_terminates)."""
+    Returns (new statements, always_terminates).  `fall()` gives the statements for the implicit `return None` where control
+    falls off the end of a branch while a sibling branch returned: they must go INTO that branch (appending them after the
+    whole `if` would overwrite the value bound by the branch that returned)."""
     out = []
     for i, s in enumerate(stmts):
         if isinstance(s, ast.Return):
             out.extend(make(s))
             return out, True
-        if isinstance(s, ast.Raise):
+        if isinstance(s, ast.Raise) or (isinstance(s, ast.Assert) and isinstance(s.test, ast.Constant) and not s.test.value):
             out.append(s)
             return out, True
         if not _contains_return([s]):
@@ -184,11 +186,15 @@ def _tail(stmts, make):
                 out.append(ast.copy_location(ast.If(test=s.test, body=b, orelse=e), s))
                 return out, True
             if bt and not et:
-                e2, t2 = _tail(list(s.orelse) + rest, make)
+                e2, t2 = _tail(list(s.orelse) + rest, make, fall)
+                if not t2 and fall is not None:
+                    e2, t2 = e2 + fall(), True
                 out.append(ast.copy_location(ast.If(test=s.test, body=b or [ast.Pass()], orelse=e2), s))
                 return out, t2
             if et and not bt:
-                b2, t2 = _tail(list(s.body) + rest, make)
+                b2, t2 = _tail(list(s.body) + rest, make, fall)
+                if not t2 and fall is not None:
+                    b2, t2 = b2 + fall(), True
                 out.append(ast.copy_location(ast.If(test=s.test, body=b2 or [ast.Pass()], orelse=e), s))
                 return out, t2
             raise NotInlinable('return on a branch that does not always return')
@@ -382,7 +388,7 @@ class Inliner:
                     if single is not None and isinstance(v, ast.Name) and v.id == single:
                         return []       # x = x
                     return self._assign(targets, v, r)
-                new, term = _tail(body, make)
+                new, term = _tail(body, make, fall=lambda: self._assign(targets, ast.Constant(value=None), s))
                 if not term:
                     new += self._assign(targets, ast.Constant(value=None), s)
                 return self.done(h, pre + new, s)
